@@ -86,7 +86,8 @@ def gen_vectors(ck, astp, ast):
     nt = len(ast["types"]) + 3 * len(ast["functions"])
     rounds = 1000 if ck.thorough else 40
     total = nt * rounds
-    per = (total + SHARDS - 1) // SHARDS
+    nsh = SHARDS if ck.thorough else 8
+    per = (total + nsh - 1) // nsh
     def one(i):
         lo, hi = i * per, min(total, (i + 1) * per) - 1
         if lo > hi:
@@ -99,7 +100,7 @@ def gen_vectors(ck, astp, ast):
         if len(v) != hi - lo + 1:
             raise Infra("TlSem_Gen shard %d emitted %d of %d vectors" % (i, len(v), hi - lo + 1))
         return v
-    vecs = [v for part in vlib.parallel(one, range(SHARDS), n=8) for v in part]
+    vecs = [v for part in vlib.parallel(one, range(nsh), n=8) for v in part]
     vecs.sort(key=lambda v: v["vec"])
     return vecs
 
@@ -129,13 +130,19 @@ def judge(ck, traces, what):
                 {"kind": "trace", "event": e, "segment_note": rj["segment"][0].get("note", "")})
 
 
-def canary_trace(ck, name, events, want_line):
-    p = os.path.join(ck.work, "canary_%s.ndjson" % name.split(":")[0].replace(" ", "_"))
-    vlib.write_ndjson(p, events + [{"k": "End"}])
+def canary_traces(ck, items):
+    """items: (name, events, line that must be the first rejected one); validated in parallel, not counted as coverage"""
     st, tr, ok, evs = ck.states, ck.transitions, ck.traces_ok, ck.evaluations
-    _, rej = ck.validate_segments("TlSem_Trace", "trace/TlSem_Trace.cfg", p, name="canary")
+    def one(it):
+        name, events, want = it
+        p = os.path.join(ck.work, "canary_%s.ndjson" % name.split(":")[0].replace(" ", "_"))
+        vlib.write_ndjson(p, events + [{"k": "End"}])
+        _, rej = ck.validate_segments("TlSem_Trace", "trace/TlSem_Trace.cfg", p, name="canary_" + name.split(":")[0].replace(" ", "_"))
+        return len(rej) == 1 and rej[0]["line"] == want
+    res = vlib.parallel(one, items, n=5)
     ck.states, ck.transitions, ck.traces_ok, ck.evaluations = st, tr, ok, evs
-    ck.canary(name, len(rej) == 1 and rej[0]["line"] == want_line)
+    for (name, _, _), good in zip(items, res):
+        ck.canary(name, good)
 
 
 def flip_hex(h, pos=None):
@@ -219,7 +226,7 @@ def run(ck):
     ck.run_vh(["drive", "C10", "-part", "reqdecode", "-in", vecp, "-out", rdp, astp])
 
     # ---------------------------------------------------------------- C->S
-    shards = 32 if ck.thorough else SHARDS
+    shards = 32 if ck.thorough else 8
     def drive(i):
         tp = os.path.join(ck.work, "trace_%02d.ndjson" % i)
         ck.run_vh(["drive", "C10", "-out", tp, "-tier", ck.tier, "-seed", ck.seed, "-shard", i, "-shards", shards, astp])
@@ -242,18 +249,18 @@ def run(ck):
     body = [e for e in evs if e.get("k") != "End"]
     im = next(i for i, e in enumerate(body) if e["k"] == "Marshal" and len(e["hex"]) >= 8)
     c1 = copy.deepcopy(body[:im + 2]); c1[im]["hex"] = flip_hex(c1[im]["hex"])
-    canary_trace(ck, "marshal: one byte of a recorded encoding flipped", c1, im + 1)
     iu = next(i for i, e in enumerate(body) if e["k"] == "Unmarshal" and e["err"] == "" and e["rest"] > 0)
     c2 = copy.deepcopy(body[:iu + 2]); c2[iu]["rest"] -= 4
-    canary_trace(ck, "unmarshal: unread tail misreported", c2, iu + 1)
     c3 = copy.deepcopy(body[:iu + 2]); c3[iu]["hex"] = flip_hex(c3[iu]["hex"], 0)
-    canary_trace(ck, "unmarshal-input: first byte of the input changed, value kept", c3, iu + 1)
     cb = [e for e in cevs if e.get("k") != "End"]
     ic = next(i for i, e in enumerate(cb) if e["k"] == "Call" and e["err"] == "")
     c4 = copy.deepcopy(cb[:ic + 1]); c4[ic]["payload"] = flip_hex(c4[ic]["payload"], len(c4[ic]["payload"]) - 16)
-    canary_trace(ck, "call: one byte of the captured request changed", c4, ic + 1)
     c5 = copy.deepcopy(cb[:ic + 1]); c5[ic]["err"] = "e"; del c5[ic]["res"]
-    canary_trace(ck, "call-result: returned value replaced by an error", c5, ic + 1)
+    canary_traces(ck, [("marshal: one byte of a recorded encoding flipped", c1, im + 1),
+                       ("unmarshal: unread tail misreported", c2, iu + 1),
+                       ("unmarshal-input: first byte of the input changed, value kept", c3, iu + 1),
+                       ("call: one byte of the captured request changed", c4, ic + 1),
+                       ("call-result: returned value replaced by an error", c5, ic + 1)])
     return ck.finish(rule=RULE, distinct=ck.evaluations)
 
 
